@@ -36,6 +36,8 @@ def drive(ctx):
         d = d + _dt.timedelta(seconds=extra)
         return mk_dt(UTCZ, [d.year, d.month, d.day, d.hour, d.minute, d.second, d.microsecond], 0)
 
+    for loc in ctx.mine(locs):
+        ctx.emit("locale_tables", {"locale": loc})
     work = []
     for loc in locs:
         for unit in UNITS:
